@@ -238,6 +238,45 @@ def xenMapScan (cfg : Cfg) (entsz : Nat) (addOk : Nat → Bool) :
         xenMapScan cfg entsz addOk n (k + 1) pol (pos + entsz) ⟨st.cur, st.left - entsz⟩ orc
       else ⟨.err .system, fcachePut st.cur, orc⟩
 
+/-- the `for (;;)` loop of `verify_magic_number` (src/kdumpfile/sadump.c): the cursor walks over
+32-bit words inside the held entry `f` (`left` bytes of it remain, the current word included);
+when the entry is used up it is released and the entry of the next position is fetched.
+`cont k` says whether the k-th word continues the magic sequence (file content: a parameter).
+A failing fetch ends the scan with nothing held (`read_err`: the old entry has been released
+already), a fetched entry with fewer than four bytes is released (`read_err_put`; the C code
+returns the status variable, which is still `KDUMP_OK` there), and so is the entry in which the
+sequence ends. -/
+def magicLoop (cfg : Cfg) (fidx : Nat) (cont : Nat → Bool) :
+    Nat → Nat → Policy → Nat → Fce → Nat → List Ext → Out Policy
+  | 0, _, _, _, _, _, orc => stuckOut orc
+  | fuel + 1, k, pol, pos, f, left, orc =>
+    if left - 4 = 0 then
+      match fcacheGet cfg pol fidx (pos + 4) orc with
+      | ⟨.stuck, _, _⟩ => stuckOut orc
+      | ⟨.err s, e, o⟩ => ⟨.err s, [.put f.c f.key] ++ e, o⟩
+      | ⟨.ok (f', pol'), e, o⟩ =>
+        if f'.len < 4 then ⟨.err .ok, [.put f.c f.key] ++ e ++ [.put f'.c f'.key], o⟩
+        else if cont k then
+          match magicLoop cfg fidx cont fuel (k + 1) pol' (pos + 4) f' f'.len o with
+          | ⟨.stuck, _, _⟩ => stuckOut orc
+          | ⟨r, e2, o2⟩ => ⟨r, [.put f.c f.key] ++ e ++ e2, o2⟩
+        else ⟨.ok pol', [.put f.c f.key] ++ e ++ [.put f'.c f'.key], o⟩
+    else if cont k then magicLoop cfg fidx cont fuel (k + 1) pol (pos + 4) f (left - 4) orc
+    else ⟨.ok pol, [.put f.c f.key], orc⟩
+
+/-- `verify_magic_number(ctx, fidx, &pos)`: `pos` is the position of the first magic number -/
+def verifyMagic (cfg : Cfg) (fidx : Nat) (cont : Nat → Bool) (fuel : Nat) (pol : Policy) (pos : Nat)
+    (orc : List Ext) : Out Policy :=
+  match fcacheGet cfg pol fidx pos orc with
+  | ⟨.stuck, _, _⟩ => stuckOut orc
+  | ⟨.err s, e, o⟩ => ⟨.err s, e, o⟩
+  | ⟨.ok (f, pol'), e, o⟩ =>
+    if f.len < 4 then ⟨.err .ok, e ++ [.put f.c f.key], o⟩
+    else
+      match magicLoop cfg fidx cont fuel 0 pol' pos f f.len o with
+      | ⟨.stuck, _, _⟩ => stuckOut orc
+      | ⟨r, e2, o2⟩ => ⟨r, e ++ e2, o2⟩
+
 /-- `put_fces(fces, n)` releases from the last entry down; `held` lists the
 entries most recent first, which is exactly that order -/
 def putFces (held : List Fce) : List Ev := held.map (fun f => Ev.put f.c f.key)
